@@ -23,7 +23,10 @@ SPEC = dict(
     classify=classify,
     rule=("gadget.yaml texts for one volume `pc` (bootloader grub, schema gpt): 6 fixed witnesses (two uint64-wrap volumes, "
           "four quantities whose int64 product wraps); ALL volumes of <= 2 (quick) / <= 3 (thorough) structures with offset in "
-          "{none,1M,2M,3M}, size in {1M,2M}, min-size in {none,1M}; random mostly-valid volumes of 1-7 structures: optional MBR "
+          "{none,1M,2M,3M}, size in {1M,2M}, min-size in {none,1M}; 72 floating chains (a min-size < size structure at 1M, one or two "
+          "structures without an offset of their own, min-size < or = size, then a structure whose explicit offset sweeps in 1M steps "
+          "from the start of the last floating structure over its min-size end to past its full-size end); every 8th random case a "
+          "random floating chain with byte-exact offsets (min-size end -1/0/+1, full-size end -1/0/+1); random mostly-valid volumes of 1-7 structures: optional MBR "
           "(type: mbr / role: mbr on bare or GUID type, sizes 100/440/446/447), structures placed left to right with explicit "
           "offsets (at, after, slightly before or far before the running end), implicit offsets, min-size < / = / > size, "
           "missing size, `partial: [size]`, misplaced MBR, shuffled yaml order, offset-write (absolute / relative to s0, s1 or a "
